@@ -50,42 +50,47 @@ class C42(Prop):
         "R-instance of one polymorphic transcription of compute_saturations / "
         "chainrule_fractional_derivatives / normalize_rows: for fractions on the simplex and "
         "positive densities the closed form s_j = (y_j/rho_j)/sum_k(y_k/rho_k) is non-negative, "
-        "sums to one and reproduces y as density-weighted saturation ratios; it solves, row by "
-        "row, the linear system the code assembles (matrix and right-hand side transcribed; "
-        "C42_n_phase_partial: uniqueness of that solution is not proved); the two-phase formula "
-        "of the code equals the closed form and the whole two-phase call (saturation tests, "
-        "final assertion) returns it; every entry of the matrix the chain rule applies is the "
-        "partial derivative of the normalisation x_i/sum(x) (Coquelicot is_derive) and the code "
-        "returns gradient x Jacobian; normalised rows sum to one. The Q-instance of the same "
-        "definitions is executed inside Coq against the real code on every run (2-5 phases, "
-        "vanishing and saturated phases, error inputs), outputs compared within 1e-9.")
+        "sums to one and reproduces y as density-weighted saturation ratios; it solves the linear "
+        "system the code assembles and is its ONLY solution (C42_n_phase_unique), so under the "
+        "contract of np.linalg.solve the whole n>=3-phase call returns it, vanished phases (exact "
+        "zeros) included (C42_n_phase_call); the two-phase call returns it (C42_two_phase_call); "
+        "a saturated phase (y_j >= 1-eps) yields the indicator vector, which is non-negative, sums "
+        "to one and deviates from y by at most eps (C42_saturated_phase); every entry of the "
+        "chain-rule matrix is the partial derivative of x_i/sum(x) (Coquelicot is_derive), the "
+        "code returns gradient x Jacobian and that is the derivative of the composed function "
+        "f(normalize(x)) for every differentiable outer function (C42_chainrule_composed); "
+        "normalised rows sum to one. Transfer theorems (C42_transfer_*) show that the Q instance "
+        "executed by the tie and the R instance of the theorems coincide through Q2R. The "
+        "Q-instance is executed inside Coq against the real code on every run, outputs compared "
+        "within 1e-9.")
     level_note = (
-        "Not proved: non-singularity of the assembled n-phase system and that np.linalg.solve "
-        "returns its solution (the tie executes the model with exact Gauss-Jordan elimination as "
-        "stand-in AND compares the code's output with the closed form inside Coq on every "
-        "simplex case); the saturated-phase shortcut (y_j >= 1-eps gives the indicator vector, "
-        "equal to the closed form only when y_j = 1 exactly; deviation O(eps)) is covered by "
-        "tie and oracle only; floating-point rounding; the multivariate chain "
-        "rule of calculus itself for an arbitrary differentiable outer function (C42_chainrule is "
-        "stated for the Jacobian entries and for the vector-matrix product the code forms). The "
-        "theorems are about the R-instance, the tie executes the Q-instance of the same "
-        "polymorphic definitions (instance-independence is trusted). Fractions in (0, eps] are "
-        "dropped by the code like exact zeros: the result then deviates from the closed form by "
-        "O(eps); the generator uses 2^-50 there and the 1e-9 band absorbs it.")
-    technique = ("Coq proof over R (list induction, field/lra/nra, Coquelicot is_derive) + "
-                 "vm_compute execution correspondence of the Q-instance")
+        "Not proved: that np.linalg.solve returns a solution when one exists (explicit premise of "
+        "C42_n_phase_call; the tie uses exact Gauss-Jordan elimination as stand-in and also "
+        "compares the code's output with the closed form inside Coq); floating-point rounding. "
+        "'Differentiable outer function' in C42_chainrule_composed means: obeys the chain rule "
+        "along every componentwise differentiable curve through the normalised point (shown for "
+        "affine functions, C42_affine_differentiable; implied by Frechet differentiability, not "
+        "re-proved). Fractions in (0, eps] are dropped by the code like exact zeros: the result "
+        "then deviates from the closed form by O(eps) (theorems require 0 or > eps); the generator "
+        "uses 2^-50 there and the 1e-9 band absorbs it.")
+    technique = ("Coq proof over R (list induction, field/lra/nra, Coquelicot is_derive, Q2R "
+                 "transfer) + vm_compute execution correspondence of the Q-instance")
     rule = ("fractions on the simplex as dyadic rationals for 1-5 phases with exact-zero, tiny "
-            "(2^-50) and saturated (1, 1-2^-40) phases, densities dyadic in [1/4,64], 1-D and "
-            "column-vector calls, multi-saturated error inputs; chain-rule inputs: integer "
+            "(2^-50) and saturated (1, 1-2^-40) phases, densities dyadic in [1/4,64] times one "
+            "exact power-of-two scale 2^-30..2^30, 1-D calls and vectorised calls with 1-3 "
+            "different columns (every column compared; inputs checked unmodified), "
+            "multi-saturated error inputs; chain-rule inputs: integer "
             "gradients (not all zero) with 0-3 leading non-fraction entries and fractions that "
             "are 45% already normalised (dyadic, sum EXACTLY one, incl. zero and saturated "
-            "components), 15% within 2^-45 of sum one, 40% general positive dyadics; matrices with positive dyadic rows for normalize_rows; non-trivial = a "
+            "components), 15% within 2^-45 of sum one, 40% general positive dyadics; matrices "
+            "with positive dyadic rows for normalize_rows; non-trivial = a "
             "saturation case with >= 3 present phases (linear solve) or a chain-rule case with "
             ">= 2 components; distinct by (case, output)")
-    trusted = ["np.linalg.solve returns the solution of the assembled system (non-singularity not proved)",
-               "the Q- and R-instances of the polymorphic model behave alike",
+    trusted = ["np.linalg.solve returns a solution of the assembled system whenever one exists "
+               "(premise of C42_n_phase_call)",
                "outputs compared with |impl-model| <= 1e-9(1+|model|) inside Coq"]
-    assumptions = ["densities > 0; fractions >= 0 summing to one; eps = 1e-10 (default)"]
+    assumptions = ["densities > 0; fractions >= 0 summing to one, each 0 or > eps; eps = 1e-10 "
+                   "(default), theorems for 0 < eps < 1/2"]
 
     # ---------------------------------------------------------------- generation
     def _simplex(self, rng, n):
